@@ -164,7 +164,16 @@ func (g *gen) value(ty string, depth int) *val {
 		}
 		return &val{k: 'R', rec: g.recordFor(g.u.structs[ty[2:]], ty, depth+1)}
 	case 'V':
-		return &val{k: 'R', rec: g.record(g.u.structs[ty[2:]], ty, depth+1)}
+		// a by-value struct slot (plain struct field, element of []T): sometimes a record used before in such a
+		// slot of the same type — it converts to a copy
+		if p := g.pool["V|"+ty]; len(p) > 0 && g.r.Intn(200) < g.share {
+			return &val{k: 'R', rec: p[g.r.Intn(len(p))]}
+		}
+		rec := g.record(g.u.structs[ty[2:]], ty, depth+1)
+		if rec.tn != "" {
+			g.pool["V|"+ty] = append(g.pool["V|"+ty], rec)
+		}
+		return &val{k: 'R', rec: rec}
 	case 'N':
 		impls := g.u.impls[ty[2:]]
 		if depth >= g.maxD || len(impls) == 0 || g.r.Intn(5) == 0 {
